@@ -161,6 +161,8 @@ def gen_spec(rng, pairing=None, small=False, allow_tiering=False,
     for i in range(nobs):
         dur = rng.randint(1, 5)
         rate = rng.randint(1, hot_rate)
+        if rng.random() < 0.08:
+            rate = 0      # an observation that produces no data (or < 0.5 per step, rounded to 0)
         demand = rng.randint(1, total_arrays)
         ing = rng.randint(1, max_ingest)
         o = {"name": names[i], "start": t, "duration": dur, "demand": demand,
@@ -294,6 +296,22 @@ def serial_bound(spec):
     """The analytic serial bound of C05 (in timesteps)."""
     import math
     c = 3
+    unit = spec.get("timestep", "seconds")
+    mult = {"seconds": 1, "minutes": 60, "hours": 3600}.get(unit, unit if isinstance(unit, int) else 1)
+    if mult != 1:
+        # the bound is in timesteps: evaluate it on the configuration as parsed
+        sp = json.loads(json.dumps(spec))
+        sp["timestep"] = "seconds"
+        for o in sp["observations"]:
+            o["start"] = o["start"] / mult
+            o["duration"] = o["duration"] / mult
+            o["rate"] = o["rate"] * mult
+        for mm in sp["machines"]:
+            mm["flops"] *= mult
+            mm["bw"] *= mult
+        sp["hot"]["rate"] *= mult
+        sp["cold"]["rate"] *= mult
+        return int(math.ceil(serial_bound(sp)))
     slow_cpu = min(m["flops"] for m in spec["machines"])
     slow_bw = min(m["bw"] for m in spec["machines"])
     rate = min(spec["hot"]["rate"], spec["cold"]["rate"])
